@@ -19,7 +19,7 @@ def shapes(quick, r):
                 continue
             out.append(list(shape))
     rnd = []
-    for _ in range(4 if quick else 30):
+    for _ in range(C.T(4, 30)):
         rnd.append([r.choice([7, 13, 31, 100, 250, 1000]), r.choice([2, 3, 5, 9])])
     return out, rnd
 
@@ -91,5 +91,5 @@ def run():
     chk.exhaustive = True
     chk.assumptions.append("orthogonal int(x / |S|) is float division: exact below 2^53; numpy int64 products do not overflow below 10^18")
     from . import localgen
-    localgen.add_grid_to(chk, C.rng("C16-grid"), 60 if C.tier() != "thorough" else 600, constraint_p=0.3)
+    localgen.add_grid_to(chk, C.rng("C16-grid"), C.T(60, 600), constraint_p=0.3)
     return chk.finish()
